@@ -6,6 +6,7 @@ import numpy as np
 import pepsolve
 
 KEEP = []     # objects of earlier models that stay referenced (fragment 8)
+RELEASE = []  # earlier models whose last reference is dropped / that are garbage collected WHILE model B is being built
 
 
 def snapshot():
@@ -47,6 +48,8 @@ MODELS = {
     7: dict(cls=1, steps="gg", comp=0, ucons=[], lmis=[], metrics=1, part=0, _heur="trace"),
     8: dict(cls=2, steps="g", comp=0, ucons=["pi"], lmis=["S2"], metrics=2, part=0, _heur="logdet1"),
     9: dict(_three=1),       # three leaf functions of different classes in one model
+    10: dict(_c16="unbounded1"),     # a model without finite value
+    11: dict(_c16="infeasible1"),    # an infeasible model
 }
 
 
@@ -109,8 +112,22 @@ def fragment(k):
             f.oracle(x); g = f.gradient(y)
             c = ((x - y) ** 2 <= e)
             PSDMatrix([[e, 1], [1, e]])
+        elif k == 15:     # solved; the user's last reference to it is dropped later, while the next model is being built
+            b = pepsolve.build(dict(cls=1, steps="g", ucons=["pi"])); b.pep.solve(verbose=0, solver="CLARABEL")
+            RELEASE.append(b)
+        elif k == 16:     # abandoned inside a reference cycle: only the cycle collector frees it, at some later moment
+            b = pepsolve.build(dict(cls=2, steps="gg", lmis=["S2"]))
+            b.pep._verif_cycle = b; b.me = b.pep
         else:
             raise KeyError(k)
+
+
+def c16_model(scn, on_pep):
+    import drv_c16
+    b = pepsolve.Built()
+    b.pep, b.held = drv_c16.build(scn)
+    on_pep()                  # (registries after the construction: the same moment in the history run and in the reference)
+    return b
 
 
 def run_b(bid, verbose):
@@ -122,7 +139,16 @@ def run_b(bid, verbose):
     buf = io.StringIO()
     out = "num"
     with contextlib.redirect_stdout(buf):
-        b = three_functions(prog["_on_pep"]) if prog.get("_three") else pepsolve.build(prog)
+        if prog.get("_three"):
+            b = three_functions(prog["_on_pep"])
+        elif prog.get("_c16"):
+            b = c16_model(prog["_c16"], prog["_on_pep"])
+        else:
+            b = pepsolve.build(prog)
+        # earlier models die now: the last reference is dropped, the cycle collector runs (model B is built, not yet solved)
+        import gc
+        del RELEASE[:]
+        gc.collect()
         try:
             ret = b.pep.solve(verbose=verbose, solver="CLARABEL", **kw)
             if ret is None:
